@@ -28,4 +28,5 @@ VARIANTS += [
     M('C13', 'no-padding-for-the-empty-pattern', E(RX, "        if self.n_stripped > 0:\n            Cats = self.OutCats if output and self.dialect else self.Cats", "        if parts and self.n_stripped > 0:\n            Cats = self.OutCats if output and self.dialect else self.Cats"),
       rule='C13-WSPAD', key='vrle2re'),
     M('C13', 'refactor-padding-test-truthiness', E(RX, "        if self.n_stripped > 0:\n            Cats = self.OutCats if output and self.dialect else self.Cats", "        if self.n_stripped:\n            Cats = self.OutCats if output and self.dialect else self.Cats"), kind='refactor'),
+    M('C13', 'anchor-skipped-when-body-ends-in-dollar', E(RX, "    return '^%s$' % expr", "    return ('' if expr.startswith('^') else '^') + expr + ('' if expr.endswith('$') else '$')"), rule='C13-EXTRACT', key='ends-in-dollar'),
 ]
